@@ -139,7 +139,7 @@ func c17TextCheck(c c17Text) (fs []rep.Finding) {
 
 func init() {
 	p := register(&Prop{ID: "C17", Level: "exploration",
-		Rule: "exhaustive: all 65,025 (version,network) pairs in 1..255 x prefixes {bitcoin-script, bitcoin-template} x payload lengths {0,1,20} (quick) / {0,1,2,20,33,100} (thorough) plus out-of-range fields {0,256,-1}: EncodeBIP276 text byte-identical to the reference layout, decode(encode(x))=x, spec-layout text decodes, ValidateAddress <=> decodes; and for 40 valid encodings (library-made and spec-made) EVERY single-character substitution over the alphabet 0-9a-fA-F:gz and space at every position, every deletion and every insertion (the valid text is decoded first, then the corrupted one): rejected whenever the reference decoder (checksum over the text, hex case-insensitive) rejects. distinct_nontrivial = distinct texts judged",
+		Rule: "exhaustive: all 65,025 (version,network) pairs in 1..255 x prefixes {bitcoin-script, bitcoin-template} x payload lengths {0,1,20} (quick) / {0,1,2,20,33,100} (thorough) plus out-of-range fields {0,256,-1}: EncodeBIP276 text byte-identical to the reference layout, decode(encode(x))=x, spec-layout text decodes, ValidateAddress <=> decodes; and for 40 valid encodings (library-made and spec-made) EVERY single-character substitution over the alphabet of ALL printable ASCII characters plus tab, newline, NUL and a non-ASCII letter at every position, every deletion and every insertion (the valid text is decoded first, then the corrupted one): rejected whenever the reference decoder (checksum over the text, hex case-insensitive) rejects. distinct_nontrivial = distinct texts judged",
 	})
 	sE := NewSpace(p, "encode", c17EncCheck)
 	sT := NewSpace(p, "text", c17TextCheck)
@@ -176,7 +176,12 @@ func init() {
 				seeds = append(seeds, bscript.EncodeBIP276(bscript.BIP276{Prefix: bscript.PrefixScript, Version: vn[0], Network: vn[1], Data: d}))
 			}
 		}
-		alpha := "0123456789abcdefABCDEF:gz "
+		// every printable ASCII character (so also the signs, dots, underscores and prefixes that
+		// number parsers tolerate), tab, newline, NUL and a non-ASCII letter
+		alpha := "\t\n\x00\u00e9"
+		for ch := byte(0x20); ch < 0x7f; ch++ {
+			alpha += string(rune(ch))
+		}
 		(&Space[c17Text]{P: p, Name: sT.Name, Check: func(c c17Text) []rep.Finding {
 			fs := c17TextCheck(c)
 			r.Distinct("t", c.Text)
